@@ -507,6 +507,8 @@ class Exec(object):
         ret, exc, evs, _ = self.call("play_NoteContainer", nc, op.get("argch", 1), op.get("argvel", 100))
         self._note_events_check("play_NoteContainer", evs, exp_on, exc, {})
         ret, exc, evs, _ = self.call("stop_NoteContainer", nc, op.get("argch", 1))
+        if exc is None and sorted((k, tuple(a)) for (k, a, t) in evs) == sorted(exp_off):
+            exp_off = [(k, tuple(a)) for (k, a, t) in evs]  # any order of the stops of one chord
         self._note_events_check("stop_NoteContainer", evs, exp_off, exc, {})
         self.shape.append("nc%d" % len(specs))
 
@@ -567,23 +569,25 @@ class Exec(object):
     # -- sequential composite calls ----------------------------------------
     def _sequential(self, name, args, entries, bpm0, feats):
         ret, exc, evs, t0 = self.call(name, *args)
-        exp, secs, fin = expect_sequential(entries, bpm0)
         n_notes = sum(len(e["notes"] or []) for e in entries)
         if any(e["notes"] is None for e in entries):
             self.probes["rest_played"] += 1
         if any(e.get("bpm") is not None for e in entries):
             self.faults["tempo_jump"] += 1
-        ok = self._note_events_check(name, evs, exp, exc, feats)
-        if exc is None:
-            self.check_balance(name, evs, feats)
-            self.clauses["C18.time"] += 1
-            slept = sum((Fraction(a[0]) for (k, a, t) in evs if k == "sleep"), Fraction(0))
-            if not _close(slept, secs):
-                self.fail("C18.time", "%s: slept %.9f s in total, the music lasts %.9f s" % (name, float(slept), float(secs)), api=name, **feats)
-            self.clauses["C18.return"] += 1
-            if not (isinstance(ret, dict) and ret.get("bpm") == fin):
-                self.fail("C18.return", "%s returned %r, final tempo is %r" % (name, ret, fin), api=name, **feats)
+        self.clauses["C18.events"] += 1
         self.shape.append("%s:%d:%d" % (name, len(entries), n_notes))
+        if exc is not None:
+            clause = "C18.stall" if isinstance(exc, SimBudgetExceeded) else "C18.events"
+            self.fail(clause, "%s raised %s: %s" % (name, type(exc).__name__, exc), api=name, raised=type(exc).__name__, **feats)
+            return
+        # "for every sounding note in order": the play events come in the order of the music
+        want_on = [("on", (score.pitch_of(nm, o) + 12, ch, vel)) for e in entries for (nm, o, ch, vel) in (e["notes"] or [])]
+        got_on = [(k, tuple(a)) for (k, a, t) in evs if k == "on"]
+        if got_on != want_on or any(type(x) is not int for k, a in got_on for x in a):
+            kind = "C18.values" if sorted(x[1][:2] for x in got_on) == sorted(x[1][:2] for x in want_on) and len(got_on) == len(want_on) and [x[1][:2] for x in got_on] == [x[1][:2] for x in want_on] else "C18.events"
+            self.fail(kind, "%s: play events %s, the music has %s" % (name, _short(got_on), _short(want_on)), api=name, **feats)
+            return
+        self._compare_timeline(name, evs, [[entries]], bpm0, ret, feats)
 
     def do_play_bar(self, op):
         mb = self.world.pick(self.world.bars, op["bar"])
@@ -666,21 +670,30 @@ class Exec(object):
         if instr_expected is not None:
             self.clauses["C18.instr"] += 1
             head = [(kk, a) for (kk, a, t) in evs[: len(instr_expected)]]
-            if head != instr_expected:
+            # one change per track on its channel, before any note; their mutual order is not constrained
+            if sorted(head) != sorted(instr_expected):
                 self.fail("C18.instr", "%s: first events %s, expected instrument changes %s" % (name, _short(head), _short(instr_expected)), api=name, **feats)
                 return
             k = len(instr_expected)
             if any(kk == "instr" for (kk, a, t) in evs[k:]):
                 self.fail("C18.instr", "%s: more than one instrument change per track" % name, api=name, **feats)
         body = evs[k:]
+        self._compare_timeline(name, body, [[b.entries for b in bars] for bars in voices_per_bar], bpm0, ret, feats)
+
+    def _compare_timeline(self, name, body, voices_per_bar, bpm0, ret, feats):
+        """body: device events of the playback part of one call.  voices_per_bar:
+        list (per bar index) of lists (per voice) of entry lists.  Per (channel,
+        pitch) the starts and stops must be the model's, each at the model's
+        virtual time; the order of simultaneous events of different notes and the
+        way the time is cut into sleeps are not constrained."""
         self.check_balance(name, body, feats)
         # model, bar after bar (tempo carries over)
         bpm = bpm0
         base = Fraction(0)
         exp_per = collections.defaultdict(list)
         ambiguous = False
-        for bars in voices_per_bar:
-            per, secs, fin, ok = expect_parallel([b.entries for b in bars], bpm)
+        for voices in voices_per_bar:
+            per, secs, fin, ok = expect_parallel(voices, bpm)
             if not ok:
                 ambiguous = True
             for key, lst in per.items():
@@ -692,7 +705,6 @@ class Exec(object):
             self.probes["skipped_ambiguous_tempo"] += 1
             return
         got_per = collections.defaultdict(list)
-        tstart = body[0][2] if body else Fraction(0)
         clock = Fraction(0)
         for (kk, a, t) in body:
             if kk == "on":
